@@ -81,6 +81,29 @@ def run(chk):
         add_two("R-mixed", xs[: len(xs) // 2 + 1], xs[len(xs) // 3:], k)
     chk.exhaustive = True
     b.run()
+    # histories on one database object mixing the two modes (each answer must equal a fresh one-shot search in ITS mode)
+    hops, hexp = [], []
+    for _ in range(10 if not thorough else 80):
+        pool = gen.all_strings("ACD", 3)
+        ref = gen.sub_collection(rng, pool, rng.randint(2, 8))
+        k = rng.randint(1, 2)
+        st0, db = core.call_real(lambda: nn.SymdelDB(ref, k))
+        if st0 != "ok":
+            continue
+        shared = gen.sub_collection(rng, pool, rng.randint(1, 4))
+        for step in range(rng.randint(2, 5)):
+            qs = shared if rng.random() < 0.6 else gen.sub_collection(rng, pool, rng.randint(1, 4))
+            mode = rng.choice(["lev", "ham"])
+            kw = {"custom_distance": "hamming"} if mode == "ham" else {}
+            hexp.append((ref, qs, k, mode, step, core.call_real(lambda: core.canon_trips(db.lookup(qs, **kw)))))
+            hops.append({"op": "brute_cross", "ref": ref, "qs": qs, "k": k, "mode": mode})
+    for (ref, qs, k, mode, step, real), a in zip(hexp, core.run_driver_parallel(hops)):
+        spec = ("ok", core.canon_model_trips(a[1]))
+        chk.case(nontrivial_key=("mixed-history", str(ref), str(qs), k, mode, step) if spec[1] else None)
+        if real != spec:
+            chk.violation(search.sig_of("C07", "SymdelDB.mixed-mode-history", real, spec),
+                          f"SymdelDB.lookup in mode {mode} (step {step} of a history mixing modes) differs from a fresh one-shot search",
+                          {"ref": ref, "qs": qs, "k": k, "mode": mode, "step": step, "real": str(real)[:1500], "spec": str(spec)[:1500]})
 
 
 def replay(path):
